@@ -235,7 +235,7 @@ func runSequential(s *sink, c *kit.Ctx, i int, st *detStats) {
 func runReestablish(s *sink, c *kit.Ctx, i int, st *detStats) {
 	caseName := fmt.Sprintf("reestablish/%d", i)
 	rng := c.Rng("reestablish", i)
-	variant := []string{"single-controller", "two-controllers-share-kind", "cache-read-before-startwatches"}[i%3]
+	variant := []string{"single-controller", "two-controllers-share-kind", "cache-read-before-startwatches", "startwatches-during-removal"}[i%4]
 	a, b := ctrlNames[rng.IntN(3)], ""
 	names := []string{a}
 	w := newWorld(worldPlain, &staticClient{items: map[schema.GroupKind][]map[string]any{}})
@@ -271,12 +271,59 @@ func runReestablish(s *sink, c *kit.Ctx, i int, st *detStats) {
 	if len(rm) == 0 {
 		rm[was[0].GVK] = true
 	}
+	var during []chan struct{}
+	var others []*recorder
+	if variant == "startwatches-during-removal" {
+		// a start request for the very watch arrives while its informer is being removed: it runs
+		// on its own goroutine from the moment the wrapped cache's RemoveInformer is entered. The
+		// removal waits (bounded; a start request that blocks on the tracking cache is fine) and
+		// then proceeds. Whatever the order, the NEXT start request must leave the watch live.
+		byGVK := map[gvkT]engine.WatchID{}
+		for _, x := range was {
+			byGVK[x.GVK] = x
+		}
+		w.fc.mu.Lock()
+		w.fc.beforeRemove = func(gvk gvkT) {
+			x, ok := byGVK[gvk]
+			if !ok {
+				return
+			}
+			done := make(chan struct{})
+			during = append(during, done)
+			rk := &recorder{w: w, g: len(during)} // one recorder per concurrent caller
+			others = append(others, rk)
+			go func() {
+				defer close(done)
+				_ = rk.StartWatches(a, x)
+			}()
+			select {
+			case <-done:
+			case <-time.After(50 * time.Millisecond):
+			}
+		}
+		w.fc.mu.Unlock()
+	}
 	for _, x := range was {
 		if rm[x.GVK] {
 			_ = r0.RemoveInformer(x.GVK)
 		}
 	}
+	if variant == "startwatches-during-removal" {
+		w.fc.mu.Lock()
+		w.fc.beforeRemove = nil
+		w.fc.mu.Unlock()
+		for _, d := range during {
+			select {
+			case <-d:
+			case <-time.After(30 * time.Second):
+				s.Inconclusive("reestablish: a start request issued during informer removal did not return within 30s")
+				return
+			}
+		}
+		s.Count("reestablish.startwatches_during_removal", int64(len(during)))
+	}
 	// all watches on removed informers are gone, the others untouched
+	if variant != "startwatches-during-removal" {
 	for _, x := range was {
 		n, rel := liveCount(w, a, x)
 		want := 1
@@ -287,6 +334,7 @@ func runReestablish(s *sink, c *kit.Ctx, i int, st *detStats) {
 			s.Violate("informer-removal-live-count", caseName, fmt.Sprintf("after RemoveInformer: watch %s of %q has %d live registrations, want %d", widStr(x), a, n, want),
 				map[string]any{"variant": variant, "registrations": regSummaries(rel), "history": r0.recs})
 		}
+	}
 	}
 	key := "watch-not-reestablished-after-informer-removal"
 	switch variant {
@@ -336,7 +384,7 @@ func runReestablish(s *sink, c *kit.Ctx, i int, st *detStats) {
 	if b != "" {
 		check(b, shared, key)
 	}
-	all := quiesce(s, w, caseName, "reestablish/"+variant, names, r0, nil, nil, &st.lin, &st.qs)
+	all := quiesce(s, w, caseName, "reestablish/"+variant, names, r0, others, nil, &st.lin, &st.qs)
 	s.Eval(fmt.Sprintf("reestablish|%s|%s|%v|%v", variant, a, widStrs(was), fmt.Sprint(rm)), false)
 	s.Count("reestablish.cases", 1)
 	s.Count("reestablish."+variant, 1)
